@@ -1122,8 +1122,11 @@ impl<'a, I, A> Strategies<'a, I, A> {
             ) {
                 let total: f64 = strat.iter().filter(|p| p > &&thresh).sum();
                 // if no action is played more than `thresh` there is nothing to renormalize to,
-                // so the infoset is left as it is
-                if total > 0.0 {
+                // and if no played action is at or below `thresh` there is nothing to remove: in
+                // both cases the infoset is left as it is (renormalizing probabilities that only
+                // sum to one up to rounding could push one of them below `thresh`)
+                let removes = strat.iter().any(|p| p > &0.0 && p <= &thresh);
+                if total > 0.0 && removes {
                     for p in strat.iter_mut() {
                         *p = if *p > thresh { *p / total } else { 0.0 }
                     }
